@@ -487,8 +487,58 @@ def grammar():
     docs += ['<script>var s = "<!--";</script><p>VISa</p><!-- HIDa --><p>VISb</p>', "<style>/* <!-- */</style><p>VISa</p><!-- HIDa --><p>VISb</p>",
              "<p title='<!--'>VISa</p><p>VISb</p><!-- HIDa --><p>VISc</p>", '<script>if (a --> b) {}</script><p>VISa</p><!-- HIDa --><p>VISb</p>',
              "<!-- HIDa --><p>VISa</p><script>// --> HIDb</script><p>VISb</p>", "<p>VISa</p><!-- HIDa -- HIDb --><p>VISb</p>", "<p>VISa</p><!--HIDa--!><p>VISb</p>"]
+    docs += literal_docs()
+    docs += conditional_comment_docs()
     docs += long_prefix_docs()
     docs += deep_docs()
+    return docs
+
+
+def literal_docs():
+    """Markup-looking LITERALS (document-structure end tags, comment / conditional-comment / CDATA delimiters, start and end
+    tags) standing where the tokeniser does not read them as markup -- inside raw text (script / style), inside a comment,
+    inside an attribute value, inside a CDATA section -- or inside a removed element (where they are real but hidden tags),
+    followed by more visible content and the real end of the document.  Anything that cuts, strips or re-balances the
+    document TEXTUALLY (regex over the bytes) instead of through the tokeniser trips over one of them."""
+    lits = ["</html>", "</HTML >", "</body>", "<html>", "<body>", "</head>", "<!DOCTYPE html>", "<![endif]-->", "<!--[if mso]>", "<![endif]>",
+            "<!--", "-->", "]]>", "<![CDATA[", "</div>", "</p>", "<p>", "</table>", "</noscript>", "</iframe>", "<script>", "<style>"]
+    ctxs = [lambda l: f'<script>var s = "{l} HIDa"; // {l}</script>',
+            lambda l: f"<style>/* {l} HIDa */ p {{ color: red }}</style>",
+            lambda l: f"<!-- {l} HIDa -->",
+            lambda l: f"<noscript>{l} HIDa</noscript>",
+            lambda l: f"<iframe src=x>{l} HIDa</iframe>",
+            lambda l: f"<object data=x>{l} HIDa</object>",
+            lambda l: f"<a href=u title='{l}'>VISl</a>",
+            lambda l: f"<![CDATA[{l} HIDa]]>"]
+    docs = []
+    for l in lits:
+        for cx in ctxs:
+            body = f"<p>VISa</p>{cx(l)}<p>VISb</p>"
+            docs.append(f"<html><head><meta charset=utf-8></head><body>{body}<div>VISc</div></body></html>")
+            docs.append(body + "<!-- HIDz -->VISd")
+    return docs
+
+
+def conditional_comment_docs():
+    """Outlook / IE conditional comments: downlevel-hidden (`<!--[if mso]>HIDDEN<![endif]-->`: one comment), downlevel-revealed
+    (`<!--[if !mso]><!-->VISIBLE<!--<![endif]-->`: two comments around visible content, also spelt `<!-- -->`), the
+    declaration form (`<![if !IE]>VISIBLE<![endif]>`), unterminated and nested-looking ones, several per document."""
+    hidden = ["<!--[if mso]><p>HIDh</p><![endif]-->", "<!--[if gte mso 9]><xml><o:x>HIDh</o:x></xml><![endif]-->",
+              "<!--[if (gt IE 5)&(lt IE 7)]>HIDh<![endif]-->", "<!--[if mso]>HIDh"]
+    revealed = ["<!--[if !mso]><!--><p>VISr</p><!--<![endif]-->", "<!--[if !mso]><!-- --><p>VISr</p><!-- <![endif]-->",
+                "<![if !IE]><p>VISr</p><![endif]>", "<!--[if !mso]>--><p>VISr</p><!--<![endif]-->",
+                "<!--[if !vml]><!-->VISr<img src=x><!--<![endif]-->"]
+    docs = []
+    for r in revealed:
+        docs.append(f"<div>VISa</div>{r}<div>VISb</div>")
+        for h in hidden[:3]:
+            docs.append(f"<div>VISa</div>{h}{r}<div>VISb</div>")
+            docs.append(f"<div>VISa</div>{r}<div>VISb</div>{h}<div>VISc</div>")
+            docs.append(f"<html><body>{h}<table><tr><td>{r}</td></tr></table><p>VISb</p>{h}</body></html>")
+        docs.append(f"<div>VISa</div>{r}<noscript>HIDn</noscript>{r.replace('VISr', 'VISs')}<div>VISb</div>")
+    for h in hidden:
+        docs.append(f"<div>VISa</div>{h.replace('<![endif]-->', '')}<p>HIDu</p><!-- x --><div>VISb</div><!--[if mso]>HIDv<![endif]--><p>VISc</p>"
+                    if h.endswith("<![endif]-->") else f"<div>VISa</div><p>VISb</p>{h}")
     return docs
 
 
